@@ -14,7 +14,7 @@ characters `\ LF TAB CR BEL | ; = ,` are written `\\ \n \t \r \a \p \s \e \c`.
   `configure terminal`, `end`, `reload cancel`: banner on that fixed line, wideDevice)   (late: second prompt of a two-prompt answer arrives with the next answer)   (noAsk: device does not ask `Save? [yes/no]`)
       `R=<result> TAB T=<lines |> TAB W=<cmd,line |> TAB G=<guardOK>,<pendingAfter>,<rearms>,<changes>
        TAB H=<Chg.cleanB of all>,<Chg.noProbeFirstB of all>,<specOk>` (hypotheses of the banner theorems)
-  behav = `<form>,<msg>,<out>` with form `N`, `A<pad>`, `B<off>`, `C<pad>`, `D`;
+  behav = `<form>,<msg>,<out>` with form `N`, `A<pad>`, `B<off>`, `C<pad>`, `D`, `E<pre>.<post>`;
   special = `<line>=<reply>;<reply>…`, a reply containing `<!>` where the device reads a line. -/
 namespace NA.Drv.C15
 open NA.Ios NA.IOUtil
@@ -59,6 +59,13 @@ def parseForm (s : String) : Option Form :=
   | 'A' :: r => (String.ofList r).toNat?.map Form.before
   | 'B' :: r => (String.ofList r).toNat?.map Form.inside
   | 'C' :: r => (String.ofList r).toNat?.map Form.afterPrompt
+  | 'E' :: r =>
+    match (String.ofList r).splitOn "." with
+    | [a, b] => do
+      let pre ← a.toNat?
+      let post ← b.toNat?
+      pure (Form.afterLine pre post)
+    | _ => none
   | _ => none
 
 def parseBehav (s : String) : Option Behav :=
